@@ -143,7 +143,7 @@ func unmarshalList(dec *msgpack.Decoder, ety cty.Type, path cty.Path) (cty.Value
 		return cty.ListValEmpty(ety), nil
 	}
 
-	vals := make([]cty.Value, 0, length)
+	vals := make([]cty.Value, 0, preallocLen(length))
 	path = append(path, nil)
 	for i := 0; i < length; i++ {
 		path[len(path)-1] = cty.IndexStep{
@@ -178,7 +178,7 @@ func unmarshalSet(dec *msgpack.Decoder, ety cty.Type, path cty.Path) (cty.Value,
 		return cty.SetValEmpty(ety), nil
 	}
 
-	vals := make([]cty.Value, 0, length)
+	vals := make([]cty.Value, 0, preallocLen(length))
 	path = append(path, nil)
 	for i := 0; i < length; i++ {
 		path[len(path)-1] = cty.IndexStep{
@@ -213,7 +213,7 @@ func unmarshalMap(dec *msgpack.Decoder, ety cty.Type, path cty.Path) (cty.Value,
 		return cty.MapValEmpty(ety), nil
 	}
 
-	vals := make(map[string]cty.Value, length)
+	vals := make(map[string]cty.Value, preallocLen(length))
 	path = append(path, nil)
 	for i := 0; i < length; i++ {
 		key, err := dec.DecodeString()
@@ -255,7 +255,7 @@ func unmarshalTuple(dec *msgpack.Decoder, etys []cty.Type, path cty.Path) (cty.V
 		return cty.DynamicVal, path.NewErrorf("a tuple of length %d is required", len(etys))
 	}
 
-	vals := make([]cty.Value, 0, length)
+	vals := make([]cty.Value, 0, preallocLen(length))
 	path = append(path, nil)
 	for i := 0; i < length; i++ {
 		path[len(path)-1] = cty.IndexStep{
@@ -290,7 +290,7 @@ func unmarshalObject(dec *msgpack.Decoder, atys map[string]cty.Type, path cty.Pa
 			len(atys), length)
 	}
 
-	vals := make(map[string]cty.Value, length)
+	vals := make(map[string]cty.Value, preallocLen(length))
 	path = append(path, nil)
 	for i := 0; i < length; i++ {
 		key, err := dec.DecodeString()
@@ -351,4 +351,16 @@ func unmarshalDynamic(dec *msgpack.Decoder, path cty.Path) (cty.Value, error) {
 	ty = ty.WithoutOptionalAttributesDeep()
 
 	return unmarshal(dec, ty, path)
+}
+
+// maxPrealloc bounds what the decoders allocate up front on the word of a
+// length header alone: a few bytes of input can announce billions of elements.
+// The collections still grow as elements are actually decoded.
+const maxPrealloc = 1024
+
+func preallocLen(length int) int {
+	if length > maxPrealloc {
+		return maxPrealloc
+	}
+	return length
 }
